@@ -2357,6 +2357,11 @@ static int _ov_64_seek_lap(OggVorbis_File *vf,ogg_int64_t pos,
   int i,ret;
 
   if(vf->ready_state<OPENED)return(OV_EINVAL);
+  if(!vf->seekable)return(OV_ENOSEEK);
+  /* what localseek will refuse has to be refused before the lapping
+     data is pulled out of the decoder behind the reported position */
+  if(pos<0 || pos>(localseek==ov_raw_seek?vf->end:ov_pcm_total(vf,-1)))
+    return(OV_EINVAL);
   ret=_ov_initset(vf);
   if(ret)return(ret);
   vi=ov_info(vf,-1);
@@ -2418,6 +2423,10 @@ static int _ov_d_seek_lap(OggVorbis_File *vf,double pos,
   int i,ret;
 
   if(vf->ready_state<OPENED)return(OV_EINVAL);
+  if(!vf->seekable)return(OV_ENOSEEK);
+  /* as above: refuse what localseek will refuse before taking the
+     lapping data */
+  if(!(pos>=0 && pos<ov_time_total(vf,-1)))return(OV_EINVAL);
   ret=_ov_initset(vf);
   if(ret)return(ret);
   vi=ov_info(vf,-1);
